@@ -3,6 +3,9 @@ package crlloader
 import (
 	"hash"
 
+	"github.com/gr33nbl00d/caddy-revocation-validator/core"
+	"go.uber.org/zap"
+
 	"github.com/gr33nbl00d/caddy-revocation-validator/zz_verif/verifrt"
 )
 
@@ -77,4 +80,61 @@ func VerifC20_Identity() {
 	f := &FileLoader{FileName: u1}
 	fi, _ := f.GetCRLLocationIdentifier()
 	verifrt.Assert(fi != ia, "a crl_file and a crl_url never share a store")
+}
+
+// VerifC20_FactoryIdentity: the loader the factory builds for a location keeps the location exactly as
+// given (the URL that is downloaded and hashed is the URL of the certificate / configuration, path case
+// included), for crl_url, crl_file and distribution-point sets; distribution points that differ only in
+// the case of the path, a trailing separator or an encoded separator get different stores.
+func VerifC20_FactoryIdentity() {
+	verifrt.Override("github.com/gr33nbl00d/caddy-revocation-validator/crl/crlloader.calculateHashHexString", func(s string) string {
+		h := verifrt.UFStr("sha256hex", s)
+		verifrt.Assume(len(h) == 64)
+		return h
+	})
+	verifrt.Override("(*github.com/gr33nbl00d/caddy-revocation-validator/crl/crlloader.URLLoader).normalizeUrl", func(l *URLLoader) (string, error) { return l.UrlString, nil })
+	pairs := [][2]string{
+		{"http://pki.example.com/crl/RootCA.crl", "http://pki.example.com/crl/rootca.crl"},
+		{"HTTP://PKI.example.com/CRL", "http://pki.example.com/crl"},
+		{"https://pki.example.com/a%2Fb.crl", "https://pki.example.com/a/b.crl"},
+		{"http://pki.example.com/Issuing-CA.crl", "http://pki.example.com/issuing-ca.crl"},
+	}
+	p := pairs[verifrt.Choose(len(pairs))]
+	f := DefaultCRLLoaderFactory{}
+	kind := verifrt.Choose(3)
+	mk := func(u string) (CRLLoader, error) {
+		switch kind {
+		case 0:
+			return f.CreatePreferredCrlLoader(&core.CRLLocations{CRLUrl: u}, zap.NewNop())
+		case 1:
+			return f.CreatePreferredCrlLoader(&core.CRLLocations{CRLFile: u}, zap.NewNop())
+		}
+		return f.CreatePreferredCrlLoader(&core.CRLLocations{CRLDistributionPoints: []string{"ldap://dir/cn=x", u}}, zap.NewNop())
+	}
+	la, e1 := mk(p[0])
+	lb, e2 := mk(p[1])
+	verifrt.Assert(e1 == nil && e2 == nil, "a loader exists for an http(s) location")
+	if e1 != nil || e2 != nil {
+		return
+	}
+	kept := func(l CRLLoader, u string) bool {
+		switch x := l.(type) {
+		case *URLLoader:
+			return x.UrlString == u
+		case *FileLoader:
+			return x.FileName == u
+		case *MultiSchemesCRLLoader:
+			if len(x.Loaders) != 1 {
+				return false
+			}
+			ul, ok := x.Loaders[0].(*URLLoader)
+			return ok && ul.UrlString == u
+		}
+		return false
+	}
+	verifrt.Assert(kept(la, p[0]) && kept(lb, p[1]), "the loader downloads exactly the location it was given (nothing normalised away)")
+	ia, _ := la.GetCRLLocationIdentifier()
+	ib, _ := lb.GetCRLLocationIdentifier()
+	verifrt.Assert(ia != ib, "locations that differ only in case or separators never share a store")
+	verifrt.Reach("factory-identity")
 }
